@@ -30,7 +30,8 @@ POOL = {
     'substring': (['"c"', '"b c"', '"z"', '""', 'a', '"ö"', '"aa"', 'bc', '"World"'], ['1', 'null']),
     'index': (['1', '2', '3', '-1', '-2', '4', '6', '-6', '10', '-10', '0'], ['1.5', 'a', 'null']),
     'nth': (['1', '2', '3', '-1', '-2', '4'], ['0', '1.5', 'a', '9', '-9']),
-    'number': (['1.5', '-2.5', '0.5', '3px', '45%', '-7.3em', '1000', '2.5', '-0.5', '1in', '0', '0.49999', '123.456px', '-3', '7', '3.5deg'],
+    'number': (['1.5', '-2.5', '0.5', '3px', '45%', '-7.3em', '1000', '2.5', '-0.5', '1in', '0', '0.49999', '123.456px', '-3', '7', '3.5deg',
+                '-0.4', '0.5px', '-1.5%', '2.4999999999', '1e18', '-0', '1e-12', '1.5e3px', 'math.div(1, 3)', '-2.5px', '3.5', '4.5', '-7.5em'],
                ['a', '"1"', 'null', '(1 2)']),
     'unitless': (['0.5', '1', '-0.2', '0', '1.25', '2', '0.333'], ['1px', 'a', '50%']),
     'list': (['(a b c)', '(a, b, c)', '[a b]', '()', 'a', '(1 2 3 2)', '(a: 1, b: 2)', '(a b, c d)', '[a, b]', '(a,)', 'list.slash(1, 2)',
@@ -42,7 +43,8 @@ POOL = {
     'map': (['(a: 1, b: 2)', '()', '(1px: x, "k": (n: 2))', '(a: (b: (c: 3)), d: 4)', '(b: 9, e: 5)', '(d: (x: 1))'], ['1', '(a b)', 'null']),
     'key': (['a', '"a"', 'b', '1px', 'z', 'k', 'd', 'e', 'n', 'x', '96px', 'null'], []),
     'color': (['red', '#123456', 'rgba(10, 20, 30, 0.4)', 'hsl(120, 50%, 40%)', 'transparent', '#abc', 'rgb(200, 100, 50)',
-               'hsla(30, 80%, 20%, 0.7)', 'white', 'black', '#80ff0033'], ['1', '"red"', 'null']),
+               'hsla(30, 80%, 20%, 0.7)', 'white', 'black', '#80ff0033', 'hwb(120 20% 30%)', 'hsl(0, 0%, 50%)', 'rgb(0, 0, 0)',
+               'hsl(210, 100%, 50%)', 'rgba(255, 255, 255, 0)', 'hsl(75, 33%, 66%)'], ['1', '"red"', 'null']),
     'weight': (['0%', '25%', '50%', '100%', '33.3%', '75%', '50'], ['150%', '-1%', 'a']),
     'selector': (['".a"', '".a .b"', '"a, b"', '".a.b"', '"a > b"', '":hover"', '"%p"', '"*"', '"#id.c"', '(".a" ".b")', '"ul li"',
                   '"a.x:not(.y)"', '".b"', 'a', '".a, .b .c"', '"a.x"', '".x"', '("a", ".b")'], ['1', '"["', 'null']),
@@ -184,13 +186,18 @@ def gen_case(rng, e=None):
         name, typ, lo, hi = e['rest']
         k = rng.randint(lo, hi)
         if typ == 'same-unit':
-            u = rng.choice(['', '', 'px', '%', 'em'])
-            rest = ['%s%s' % (rng.choice(['1', '2.5', '-3', '0', '10', '0.1', '7', '-0.5', '2']), u) for _ in range(k)]
+            u = rng.choice(['', '', 'px', '%', 'em', 'len'])
+            if u == 'len':       # comparable lengths, no two of the same size
+                rest = rng.sample(['1in', '50px', '2cm', '100px', '10mm', '3pt', '-1pc'], k)
+            else:
+                rest = ['%s%s' % (rng.choice(['1', '2.5', '-3', '0', '10', '0.1', '7', '-0.5', '2']), u) for _ in range(k)]
         else:
             rest = [draw(rng, typ, bad_ok) for _ in range(k)]
     if e['special'] == 'merge-keys':
         # map.merge($map1, $keys..., $map2): nested merge
         rest = [draw(rng, 'key', False) for _ in range(rng.randint(1, 2))] + [draw(rng, 'map', False)]
+    if full and bad_ok and not e['rest'] and not e['kw'] and not e['special'] and rng.random() < 0.03:
+        rest = ['1']             # one argument too many: every shape must fail
     kw = []
     if e['kw']:
         fam = rng.choice(e['kw'])
